@@ -218,6 +218,65 @@ def component_checks(quick):
                                          "replay": {"kind": "c13", "script": [f"o = {cn}(growth_model={gm!r}, use_splined_growth=True, ...)", "o.growth_factor", f"o.update({p}={v!r})", "o.growth_factor", "count calls of growth.growth_factor_fn"]}})
                 finally:
                     gcls.growth_factor_fn = orig
+    # (a) re-applying *all* current parameter values in one update() call (models together with their non-empty *_params) is setting every
+    #     parameter to a value equal to its current one: nothing may be invalidated; (b) the helper loop get_hmf changes one parameter
+    #     at a time on one instance: the transfer model must run once however many redshifts / fits / mass grids are looped over
+    from hmf.density_field import transfer_models as tmm
+    from hmf.helpers.functional import get_hmf
+    with warnings.catch_warnings():
+        warnings.simplefilter("ignore")
+        np.seterr(all="ignore")
+        for cn, extra in (("MassFunction", {"hmf_model": "SMT", "hmf_params": {"a": 0.8, "p": 0.25}, "filter_model": "SharpK", "filter_params": {"c": 2.2},
+                                            "transfer_model": "BondEfs", "transfer_params": {"nu": 1.2}, "growth_model": "Carroll1992", "growth_params": {"zmax": 20.0, "dz": 0.02},
+                                            "mdef_model": "SOMean", "mdef_params": {"overdensity": 300}, "cosmo_params": {"Om0": 0.3}}),
+                          ("Transfer", {"transfer_model": "BBKS", "transfer_params": {"a": 2.4}, "growth_model": "GrowthFactor", "growth_params": {"dlna": 0.02}, "cosmo_params": {"H0": 68.0}})):
+            cls = realfuzz.class_by_name(cn)
+            o = cls(**dict(copy.deepcopy(realfuzz.BASE[cn]), **copy.deepcopy(extra)))
+            held = {}
+            for q in realfuzz.quantities(cls):
+                try:
+                    held[q] = getattr(o, q)
+                except Exception:
+                    pass
+            for how, kw in (("update(**parameter_values)", lambda: copy.deepcopy(dict(o.parameter_values))),
+                            ("update(<every model together with its params>)", lambda: {k_: copy.deepcopy(v_) for k_, v_ in o.parameter_values.items() if k_.endswith("_model") or k_.endswith("_params")})):
+                o.update(**kw())
+                n += 1
+                changed = [q for q, b in held.items() if getattr(o, q) is not b]
+                if changed:
+                    viol.append({"key": f"{cn}/equal-update-all/invalidates", "what": f"{cn}: {how} (every value equal to the current one) recomputed {sorted(changed)[:6]}",
+                                 "replay": {"kind": "c13", "script": [f"o = {cn}(**{extra})", "read every quantity", f"o.{how}", "read every quantity again: same objects expected"]}})
+                    break
+        runs = {}
+        orig_lnt = tmm.EH_BAO.lnt
+        cnt = [0]
+
+        def counted_lnt(self, lnk, _o=orig_lnt):
+            cnt[0] += 1
+            return _o(self, lnk)
+        tmm.EH_BAO.lnt = counted_lnt
+        try:
+            fast = dict(transfer_model="EH_BAO", lnk_min=-8.0, lnk_max=4.0, dlnk=0.25, Mmin=10.0, Mmax=14.0, dlog10m=0.5)
+            for label, small, large, qs in (("z", {"z": [0.0, 1.0]}, {"z": [0.0, 0.5, 1.0, 2.0, 3.0]}, ["dndm"]),
+                                            ("z (framework=Transfer)", {"z": [0.0, 1.0]}, {"z": [0.0, 0.5, 1.0, 2.0, 3.0]}, ["power"]),
+                                            ("hmf_model", {"hmf_model": ["PS", "SMT"]}, {"hmf_model": ["PS", "SMT", "Jenkins", "Warren", "Reed03"]}, ["dndm", "power"]),
+                                            ("z x delta_c", {"z": [0.0, 1.0], "delta_c": [1.6, 1.686]}, {"z": [0.0, 1.0, 2.0], "delta_c": [1.6, 1.686, 1.7]}, ["dndm"])):
+                res = []
+                for lists in (small, large):
+                    cnt[0] = 0
+                    kw = dict(fast)
+                    if "framework=Transfer" in label:
+                        kw = {k_: v_ for k_, v_ in kw.items() if not k_.startswith("M") and k_ != "dlog10m"}
+                        kw["framework"] = realfuzz.class_by_name("Transfer")
+                    for item in get_hmf(qs, get_label=False, **dict(kw, **lists)):
+                        pass
+                    res.append(cnt[0])
+                n += 1
+                if res[1] > res[0]:
+                    viol.append({"key": f"get_hmf/{label}/transfer-model-re-run", "what": f"get_hmf over {label}: the transfer model ran {res[0]} times for {sum(len(v) for v in small.values())} values and {res[1]} times for {sum(len(v) for v in large.values())} values; changes of {label} never recompute the transfer function",
+                                 "replay": {"kind": "c13", "script": [f"count EH_BAO.lnt calls during list(get_hmf({qs}, **{small})) and list(get_hmf({qs}, **{large}))"]}})
+        finally:
+            tmm.EH_BAO.lnt = orig_lnt
     return viol, n
 
 
